@@ -137,7 +137,9 @@ pub enum CipherKind {
     Aead2022Blake3ChaCha8Poly1305,
     #[serde(rename = "2022-blake3-chacha20-poly1305")]
     Aead2022Blake3ChaCha20Poly1305,
+    // not a configuration value: an absent cipher defaults to it, the name "Unknown" does not select it
     #[default]
+    #[serde(skip_deserializing)]
     Unknown,
 }
 
